@@ -257,6 +257,10 @@ func (tm *termer) of1(v ssa.Value) *Term {
 	case *ssa.MakeInterface:
 		return tm.of(x.X)
 	case *ssa.TypeAssert:
+		if x.CommaOk {
+			// the (value, ok) tuple: its ok component depends on the asserted type
+			return &Term{Kind: "call", Name: "assert<" + types.TypeString(x.AssertedType, nil) + ">", Args: []*Term{tm.of(x.X)}}
+		}
 		return tm.of(x.X)
 	case *ssa.Extract:
 		if nx, ok := x.Tuple.(*ssa.Next); ok {
